@@ -1,24 +1,24 @@
 SPECIFICATION LiveSpec
 CONSTANTS
   Threads = {1, 2, 3}
-  Prog <- ProgRsv2
-  HashOf <- HashId
-  InitKeys <- Init1
+  Prog <- ProgTree2
+  HashOf <- HashPair
+  InitKeys <- Init2
   N0 = 2
   DCAP = 2
-  MaxNodes = 10
-  MaxTabs = 3
+  MaxNodes = 24
+  MaxTabs = 2
   STRIDE = 4
   MAXRES = 100
   STAMPCHECK = TRUE
   ACSTAMPCHECK = TRUE
   TRAVOFF = 0
   RETAINCHECK = TRUE
-  TT = 100
-  MTC = 100
-  UT = 6
-  SMIN = 3
-  SMAX = 9
+  TT = 2
+  MTC = 2
+  UT = 1
+  SMIN = 1
+  SMAX = 2
   XSKIP = FALSE
   CLRWAIT = TRUE
 INVARIANTS NoDeadlock
